@@ -1,6 +1,8 @@
 import warnings
 from typing import List
 
+import numpy as np
+
 from classy_blocks.base.element import ElementBase
 from classy_blocks.base.exceptions import EdgeCreationError
 from classy_blocks.construct.curves.curve import CurveBase
@@ -28,6 +30,11 @@ class EdgeData(ElementBase):
     def representation(self) -> EdgeKindType:
         # what goes into blockMeshDict's edge definition
         return self.kind
+
+    def reverse(self) -> None:
+        """Called when the two ends of the edge this data belongs to are swapped;
+        kinds whose data depends on edge direction adjust it so that
+        the same curve is described (point order, sense of rotation)"""
 
 
 class Line(EdgeData):
@@ -95,6 +102,10 @@ class Angle(EdgeData):
 
     def scale(self, ratio, origin=None):
         """Axis is not to be scaled"""
+
+    def reverse(self) -> None:
+        """The same arc from the other end turns the opposite way"""
+        self.angle = -self.angle
 
     @property
     def parts(self):
@@ -184,6 +195,10 @@ class Spline(OnCurve):
     @property
     def representation(self) -> EdgeKindType:
         return self.kind
+
+    def reverse(self) -> None:
+        """Points are listed from the first to the second vertex of the edge"""
+        self.curve.array.points = np.flip(self.curve.array.points, axis=0)
 
 
 class PolyLine(Spline):
